@@ -104,7 +104,7 @@ func findProxyIn(p *Prog) (*ssa.Function, *ssa.Select, int) {
 				if types.RecvOnly != st.Dir {
 					continue
 				}
-				if fv, _ := loadedField(st.Chan); fv == ich {
+				if fv, _ := loadedField(p.resolveUp(st.Chan)); fv == ich {
 					fn, sel, idx = f, s, i
 					n++
 				}
@@ -128,7 +128,7 @@ type chanOp struct {
 func chanFieldOps(p *Prog, f *types.Var) []chanOp {
 	var out []chanOp
 	isF := func(v ssa.Value) bool {
-		fv, _ := loadedField(stripConv(v, false))
+		fv, _ := loadedField(p.resolveUp(stripConv(v, false)))
 		return fv == f
 	}
 	for _, fn := range p.Funcs() {
@@ -180,7 +180,7 @@ func findProxyOut(p *Prog) *ssa.Function {
 			val = x.X
 		case *ssa.Select:
 			for _, st := range x.States {
-				if fv, _ := loadedField(st.Chan); fv == och && types.SendOnly == st.Dir {
+				if fv, _ := loadedField(p.resolveUp(st.Chan)); fv == och && types.SendOnly == st.Dir {
 					val = st.Send
 				}
 			}
@@ -391,7 +391,7 @@ func brokerChan(p *Prog, elem string) *types.Var {
 	if nil == pk {
 		return nil
 	}
-	tn, ok := pk.Types.Scope().Lookup("Broker").(*types.TypeName)
+	tn, ok := lookupObj(pk, "Broker").(*types.TypeName)
 	if !ok {
 		return nil
 	}
